@@ -59,8 +59,9 @@ def gen_tree(rng, want_std=None):
          ["scr/cylc-run/otherwf/keep", "f"], ["src", "d"], ["src/flow.cylc", "f"]]
     for i in range(2, len(run)):
         t.append(["/".join(run[:i]), "d"])
-    links_to = ["/ext/e1", "/ext/f1", "/ext/nope", "/ext/e1/sub", "/" + "/".join(run) + "/a", "../" * len(run) + "ext/e1",
-                "/cylc-run/other", "/scr", "/scr/cylc-run/otherwf", "../x", "."]
+    # (no links to an ancestor of themselves: recursive glob follows symlinks and would blow up)
+    links_to = ["/ext/e1", "/ext/f1", "/ext/nope", "/ext/e1/sub", "/cylc-run/other", "/scr", "/scr/cylc-run/otherwf",
+                "../nope"]
     run_s = "/".join(run)
     run_is_link = rng.random() < 0.07
     if run_is_link:
@@ -78,6 +79,12 @@ def gen_tree(rng, want_std=None):
         t.append([run_s, "d"])
         base = run
     _rand_content(rng, base, 0, t, links_to)
+    have = {e[0] for e in t}
+    # top-level links: relative with '..' to the outside, and to a sibling inside the run dir
+    if rng.random() < 0.3 and "/".join(base + ["up"]) not in have:
+        t.append(["/".join(base + ["up"]), "l", "../" * len(base) + "ext/e1"])
+    if rng.random() < 0.3 and "/".join(base + ["a"]) in have and "/".join(base + ["in"]) not in have:
+        t.append(["/".join(base + ["in"]), "l", "/" + "/".join(base) + "/a"])
     have = {e[0] for e in t}
     # standard dirs
     p_std = 0.5 if want_std is None else want_std
@@ -198,10 +205,10 @@ class CleanStream(Stream):
             "files/dirs/symlinks (to outside dirs and files, broken, relative with .., into the run dir), standard symlink "
             "dirs (valid, broken, invalid, nested share/cycle, the run dir itself), sentinels outside, runN/_cylc-install "
             "siblings; 0-3 --rm patterns from a pool of literal and glob patterns or wholesale; non-trivial = something was "
-            "deleted or clean refused; quick 160 cases, thorough 5000")
+            "deleted or clean refused; quick 160 cases, thorough 2500")
 
     def gen(self, rng, tier):
-        n = 160 if tier == "quick" else 5000
+        n = 160 if tier == "quick" else 2500
         cases = []
         for i in range(n):
             c = gen_tree(rng, want_std=rng.choice([0.2, 0.5, 0.8]))
@@ -489,7 +496,7 @@ class ParseStream(Stream):
 
     def gen(self, rng, tier):
         cases = []
-        n = 400 if tier == "quick" else 6000
+        n = 400 if tier == "quick" else 4000
         for _ in range(n):
             k = rng.randint(1, 6)
             comps = [rng.choice(["", ".", "..", "..", rng.choice(PNAMES), rng.choice(PNAMES)]) for _ in range(k)]
